@@ -277,4 +277,9 @@ def run (fuel : Nat) (ls : List BLine) : Option (Out × List String) :=
   | some (o, c) => some (o, c.out)
   | none => none
 
+/-- a line that is not structural: no block bracket, no construct label, no construct jump, no label -/
+def plainB : BLine → Bool
+  | .opn _ | .close | .elseOpen | .elseIfOpen _ | .clabel _ | .cgoto _ | .label _ => false
+  | _ => true
+
 end Tsh.SemB
